@@ -35,6 +35,28 @@ CLAIMED = {
              "validated by a bounded differential test); structpb property values (nesting, numeric extremes) are library behaviour "
              "and not decided; the label-vs-'label' collision in the index document is residue.",
         technique="contract-based deductive verification: code lemmas + function contracts, VCs over go/ssa, SMT (z3/cvc5)"),
+    "C01": dict(
+        level="other",
+        text="Partial: the stream processes limit, skip, range, count, has, hasLabel and hasId are proved (for every input history, "
+             "unbounded length) to forward signals in place and exactly the travelers their documented meaning keeps, in order, to close "
+             "their output once, and for limit/skip/range to emit the closed-form number of rows (min(N,n), max(0,N-n), range arithmetic); "
+             "traveler copy-on-step (AddCurrent, AddMark) is proved pointwise (marks, path, current, signal). Lookup/adjacency steps, "
+             "render/path/unwind/distinct/select, the typing table and the pipeline wiring are not yet under contract.",
+        ref="§5 C01",
+        note=TRUST + " Trusted composition principle (Kahn determinacy, DESIGN §4.3): a network of such sequential processes over FIFO channels "
+             "computes the composition of their history functions; channel sends never block in the model; stream lengths < 2^32 (2^31 for range).",
+        technique="contract-based deductive verification: history contracts + loop invariants on goroutine bodies, VCs over go/ssa, SMT"),
+    "C03": dict(
+        level="other",
+        text="Partial: insertVertex, insertEdge, AddVertex, AddEdge, DelEdge, AddGraph, DeleteGraph (and the index registry functions they call) are "
+             "proved against an abstract key-value store: each postcondition determines every stored key (the keys written/removed and the frame), "
+             "invalid elements change nothing, DelEdge removes exactly the edge key and its two adjacency entries, DeleteGraph removes every key of the "
+             "graph's five families and none of another graph, and the timestamp is touched exactly for the mutated graph. DelVertex, BulkAdd, the "
+             "readers and the label-index maintenance (C09) are not yet under contract.",
+        ref="§5 C03",
+        note=TRUST + " Assumed: the kvi interface contract (spec/kv.gvc: one ordered byte-string map; proved per driver under C10), AddDocTx writes only "
+             "index keys, proto.Marshal/Unmarshal inverse, byte-order and prefix axioms of spec/kv.smt2 and spec/keys.smt2.",
+        technique="contract-based deductive verification: abstract-store postconditions with frames, VCs over go/ssa, SMT"),
     "C05": dict(
         level="proof",
         text="Mediation is proved as the precondition of the handler parameter of both gRPC interceptors: for every exposed method "
